@@ -1171,6 +1171,20 @@ func xrefFiles() (names []string, datas [][]byte) {
 	pair := func(a, b string) {
 		addf(a+"+"+b, cat(mustRead(a), mustRead(b)))
 	}
+	// reference boxes that no testdata file carries: tref (cdsc / hint track ids), co64, stsh, subs in stbl and in traf,
+	// prft and emsg before the moof, tfhd with base_data_offset and sample_description_index
+	{
+		p := getParts()
+		tref := box("tref", box("cdsc", u32(1), u32(2)), box("hint", u32(1)))
+		stblExtra := cat(fullbox("co64", 0, 0, u32(1), u64(40)), fullbox("stsh", 0, 0, u32(1), u32(1), u32(1)),
+			fullbox("subs", 0, 0, u32(1), u32(1), u16(1), u16(10), []byte{1, 0}, u32(0)))
+		moov := fullMoov(p.mvex, tref, stblExtra)
+		tf := fullbox("tfhd", 0, 0x000003, u32(1), u64(0), u32(1))
+		subsT := fullbox("subs", 1, 0, u32(1), u32(1), u16(2), u32(10), []byte{1, 0}, u32(0), u32(12), []byte{0, 1}, u32(0))
+		moof := box("moof", mfhd(1), box("traf", tf, tfdt(0), trun(true, 100), subsT))
+		prft := fullbox("prft", 0, 0, u32(1), u64(0x83aa7e8000000000), u32(0))
+		addf("synthetic-refs", cat(p.ftyp, moov, styp(), prft, emsg(), moof, mdat(8)))
+	}
 	pair("init_cenc.cmfv", "moof_enc.m4s")
 	pair("init.mp4", "1.m4s")
 	pair("aac_init.mp4", "aac_1.m4s")
@@ -1180,6 +1194,17 @@ func xrefFiles() (names []string, datas [][]byte) {
 }
 
 func searchXref(r *hx.Rng, n int, jobs *[]job, descs *[]string) {
+	// the unmutated files must decode (a synthesized file that is rejected as a whole would exercise nothing)
+	{
+		names, datas := xrefFiles()
+		for i, name := range names {
+			if strings.HasPrefix(name, "synthetic") {
+				if _, err := decodeFile(datas[i], decCfg{}); err != nil {
+					panic("xref: " + name + " does not decode: " + err.Error())
+				}
+			}
+		}
+	}
 	// the synthesized encrypted fragments under every configuration
 	for i, c := range genXCases(r, n/200) {
 		data, _ := c.render()
@@ -1190,6 +1215,19 @@ func searchXref(r *hx.Rng, n int, jobs *[]job, descs *[]string) {
 	}
 	names, datas := xrefFiles()
 	k := 0
+	fieldHits := map[string]int{}
+	defer func() {
+		var ks []string
+		for w := range fieldHits {
+			ks = append(ks, w)
+		}
+		sort.Strings(ks)
+		var parts []string
+		for _, w := range ks {
+			parts = append(parts, fmt.Sprintf("%s=%d", w, fieldHits[w]))
+		}
+		fmt.Fprintf(out, "XREF_FIELDS\t%s\n", strings.Join(parts, ","))
+	}()
 	for i, name := range names {
 		data := datas[i]
 		var ms []mutant
@@ -1219,6 +1257,12 @@ func searchXref(r *hx.Rng, n int, jobs *[]job, descs *[]string) {
 			prio = append(prio, rest[j])
 		}
 		for _, m := range prio {
+			if a := strings.Index(m.desc, ":xref("); a >= 0 {
+				w := m.desc[a+6:]
+				if b := strings.Index(w, "@"); b >= 0 {
+					fieldHits[w[:b]]++
+				}
+			}
 			// both paths alternate under the default options, plus one rotating other configuration
 			for _, cfg := range []string{xCfgs[k%2], xCfgs[2+k%4]} {
 				*jobs = append(*jobs, job{kind: "Y", cfg: cfg, gen: m.gen})
